@@ -469,14 +469,13 @@ class SequenceBasedRoutingProblem(RoutingProblem):
                 if no_next_node:
                     # We can't go to any unvisited nodes
                     # finish out the route at the depot
-                    arc = (current_node, 0)
-                    if not self.check_arc(arc):
-                        node_nm = self.node_names[current_node]
-                        self.add_arc(node_nm, depot_nm, 0, 0)
-                        logger.info("Adding arc %s -- %s", node_nm, depot_nm)
+                    self._ensure_exit_arc(current_node)
                     for sii in range(si, self.max_sequence_length-1):
                         used_sequences.append((vi, sii, 0))
                     break
+            else:
+                # every position is used; the last node must still reach the depot
+                self._ensure_exit_arc(current_node)
             # end sequence loop
         # end vehicle loop
 
@@ -514,7 +513,26 @@ class SequenceBasedRoutingProblem(RoutingProblem):
         self.enumerate_variables()
         self.feasible_solution = np.zeros(self.num_variables)
         for seq in used_sequences:
-            self.feasible_solution[self.get_var_index(*seq)] = 1
+            var_index = self.get_var_index(*seq)
+            if var_index is None:
+                self.feasible_solution = None
+                raise ValueError(f"Construction heuristic failed: {seq} is not a variable")
+            self.feasible_solution[var_index] = 1
+        return
+
+    def _ensure_exit_arc(self, node_index):
+        """ Make sure there is an arc from nodes[node_index] back to the depot """
+        if self.check_arc((node_index, 0)):
+            return
+        node_nm = self.node_names[node_index]
+        depot_nm = self.node_names[0]
+        self.add_arc(node_nm, depot_nm, 0, 0)
+        logger.info("Adding arc %s -- %s", node_nm, depot_nm)
+        # We are changing data - everything needs to be rebuilt
+        self.variables_enumerated = False
+        self.objective_built = False
+        self.lin_con_built = False
+        self.quad_con_built = False
         return
 
     def get_objective_data(self):
